@@ -59,21 +59,22 @@ Size(s) == Len(s.fit)
 AgeDebt(s, o) == LET d == (s.age - s.aoli + 1) - o.dropoff IN IF d = 0 THEN 1 ELSE d
 Penalised(s, o) == AgeDebt(s, o) >= 1
 Young(s) == s.age <= 10
-\* common denominator of every adjusted fitness of a population of at most maxN organisms
-LDen(o, maxN) == 100 * o.sig.d * LcmUpTo(maxN)
+\* common denominator of every adjusted fitness; lbase is a common multiple of all species sizes in scope
+\* (LcmUpTo(largest population) for the exhaustive families, the lcm of the fixed sizes for the large-steal family)
+LDen(o, lbase) == 100 * o.sig.d * lbase
 \* numerator (over LDen) of the adjusted, shared fitness of an organism of species s with raw fitness f
-AdjNum(s, o, f, maxN) ==
+AdjNum(s, o, f, lbase) ==
     LET den == (IF Penalised(s, o) THEN 100 ELSE 1) * (IF Young(s) THEN o.sig.d ELSE 1) * Size(s)
         num == f * (IF Young(s) THEN o.sig.n ELSE 1)
-    IN  num * (LDen(o, maxN) \div den)
+    IN  num * (LDen(o, lbase) \div den)
 \* floor(SurvivalThresh * n + 1.0); the organisms at (0-based) positions numParents.. are marked for elimination
 NumParents(s, o) == (o.st.n * Size(s)) \div o.st.d + 1
 ParentsKept(s, o) == Size(s) - MaxI(0, Size(s) - NumParents(s, o))
 \* result: organisms sorted by adjusted fitness (most fit first), bookkeeping of the last improvement, parents
-Adjust(s, o, maxN) ==
+Adjust(s, o, lbase) ==
     LET orig == Desc(s.fit)       \* the multiplier is positive: sorting by adjusted fitness sorts by raw fitness
         improved == orig[1] > s.mx
-    IN  [adj |-> [i \in DOMAIN orig |-> AdjNum(s, o, orig[i], maxN)], orig |-> orig,
+    IN  [adj |-> [i \in DOMAIN orig |-> AdjNum(s, o, orig[i], lbase)], orig |-> orig,
          aoli |-> IF improved THEN s.age ELSE s.aoli, mx |-> IF improved THEN orig[1] ELSE s.mx,
          parents |-> ParentsKept(s, o), penalised |-> Penalised(s, o), young |-> Young(s)]
 
